@@ -16,7 +16,7 @@ AREAS = {
 }
 what, files = AREAS[area]
 earlier = []
-for b in ['', '2', '3', '4', '5', '6', '7']:
+for b in ['', '2', '3', '4', '5', '6', '7', '8']:
     d = '/verif/refactorings/R%s%d' % (b, area)
     if os.path.exists(d + '/meta.json'):
         s = json.load(open(d + '/meta.json')).get('summary', '').replace('\n', ' ')
